@@ -9,6 +9,8 @@ import (
 	"strings"
 	"time"
 
+	"github.com/datastax/cql-proxy/proxy"
+	"github.com/datastax/cql-proxy/proxycore"
 	"github.com/datastax/go-cassandra-native-protocol/frame"
 	"github.com/datastax/go-cassandra-native-protocol/message"
 	"github.com/datastax/go-cassandra-native-protocol/primitive"
@@ -39,10 +41,12 @@ type c08Case struct {
 	Reprep       string  // ok | error | drop
 	LateHost     bool    // host 3 joins after start-up
 	Idem         bool
+	Multi        int  // BATCH with this many DISTINCT prepared children (0 = one)
+	SlowCache    bool // the prepared cache's Store is slow; EXECUTE follows the PREPARE reply immediately
 }
 
 func (k c08Case) key() string {
-	return fmt.Sprintf("h%d/c%d/forget=%v/comp=%s/prepcomp=%s/v%d/prepv%d/%s/reprep=%s/late=%v/idem=%v", k.Hosts, k.Conns, k.Forget, k.Comp, k.PrepComp, k.Ver, k.PrepVer, k.Kind, k.Reprep, k.LateHost, k.Idem)
+	return fmt.Sprintf("h%d/c%d/forget=%v/comp=%s/prepcomp=%s/v%d/prepv%d/%s/reprep=%s/late=%v/idem=%v/multi=%d/slow=%v", k.Hosts, k.Conns, k.Forget, k.Comp, k.PrepComp, k.Ver, k.PrepVer, k.Kind, k.Reprep, k.LateHost, k.Idem, k.Multi, k.SlowCache)
 }
 
 func (k c08Case) class() string {
@@ -61,6 +65,12 @@ func (k c08Case) class() string {
 	late := ""
 	if k.LateHost {
 		late = "/late-host"
+	}
+	if k.Multi > 1 {
+		late += fmt.Sprintf("/children=%d", k.Multi)
+	}
+	if k.SlowCache {
+		late += "/slow-cache"
 	}
 	return fmt.Sprintf("%s/%s/%s/%s/reprep=%s%s", k.Kind, comp, cv, cc, k.Reprep, late)
 }
@@ -120,8 +130,21 @@ func c08Run(c *Ctx, idx int, k c08Case) {
 		r.Inconc(fmt.Sprintf("c08: PREPARE failed: %v", err))
 		return
 	}
+	var extraStmts []string
+	for m := 1; m < k.Multi; m++ {
+		q := fmt.Sprintf("INSERT INTO ks1.t%d (k, v) VALUES (?, %d)", m, m)
+		ef, err := prepCl.Call(int16(1+m), &message.Prepare{Query: q}, 10*time.Second)
+		if err != nil || ef.OpCode != primitive.OpCodeResult {
+			r.Inconc(fmt.Sprintf("c08: PREPARE failed: %v", err))
+			return
+		}
+		extraStmts = append(extraStmts, q)
+	}
 	for _, h := range bed.Cluster.Hosts {
 		h.Learn(idHex, stmt)
+		for _, q := range extraStmts {
+			h.Learn(hex.EncodeToString(fakecass.PreparedID("", q)), q)
+		}
 	}
 	for _, i := range k.Forget {
 		bed.Cluster.Hosts[i-1].Forget()
@@ -161,9 +184,13 @@ func c08Run(c *Ctx, idx int, k c08Case) {
 		st := int16(100 + i)
 		var f *frame.Frame
 		if k.Kind == KBatch {
-			f = frame.NewFrame(primitive.ProtocolVersion(k.Ver), st, &message.Batch{Type: primitive.BatchTypeLogged, Consistency: primitive.ConsistencyLevelOne, Children: []*message.BatchChild{
+			children := []*message.BatchChild{
 				{Id: fakecass.PreparedID("", stmt), Values: []*primitive.Value{primitive.NewValue([]byte(tok))}},
-				{Query: "UPDATE ks1.t SET v = 2 WHERE k = 'x'"}}})
+				{Query: "UPDATE ks1.t SET v = 2 WHERE k = 'x'"}}
+			for _, q := range extraStmts {
+				children = append(children, &message.BatchChild{Id: fakecass.PreparedID("", q), Values: []*primitive.Value{primitive.NewValue([]byte("v"))}})
+			}
+			f = frame.NewFrame(primitive.ProtocolVersion(k.Ver), st, &message.Batch{Type: primitive.BatchTypeLogged, Consistency: primitive.ConsistencyLevelOne, Children: children})
 		} else {
 			f = BuildRequest(primitive.ProtocolVersion(k.Ver), st, KExecute, k.Idem, tok, primitive.ConsistencyLevelOne)
 		}
@@ -218,7 +245,7 @@ func c08Run(c *Ctx, idx int, k c08Case) {
 						body = p
 					}
 				}
-				if q := prepareText(body); q != stmt {
+				if q := prepareText(body); q != stmt && !containsStr(extraStmts, q) {
 					r.Violate(mon.Violation{Signature: "C08/reprepare-wrong-text/" + k.class(), Detail: fmt.Sprintf("%s: re-PREPARE carried %q, original statement is %q", k.key(), q, stmt), Scenario: scenario})
 				}
 			}
@@ -263,7 +290,7 @@ func runC08(c *Ctx) {
 	r := c.R
 	r.Assume("the prepared cache is far from its capacity (a handful of statements), so every id prepared through the proxy is in it")
 	r.Assume("the fake backend, like Cassandra, compresses every non-empty response body once compression was negotiated, ERROR frames included, and rejects frames whose version differs from the connection's")
-	r.Require("unprepared_handled", "executes_ok")
+	r.Require("unprepared_handled", "executes_ok", "fresh_prepare_executes")
 	_ = model.Rows
 	var cases []c08Case
 	for _, hosts := range []int{2, 3} {
@@ -278,6 +305,11 @@ func runC08(c *Ctx) {
 		cases = append(cases, c08Case{Hosts: 2, Conns: 1, Forget: sub, Ver: 4, PrepVer: 4, Kind: KBatch, Reprep: "ok", Idem: true})
 		cases = append(cases, c08Case{Hosts: 2, Conns: 2, Forget: sub, Ver: 3, PrepVer: 3, Kind: KExecute, Reprep: "ok", Idem: false})
 		cases = append(cases, c08Case{Hosts: 2, Conns: 1, Forget: sub, Comp: "lz4", PrepComp: "lz4", Ver: 4, PrepVer: 4, Kind: KBatch, Reprep: "ok", Idem: true})
+	}
+	// batches with several distinct prepared children every host has forgotten
+	for _, multi := range []int{2, 3} {
+		cases = append(cases, c08Case{Hosts: 3, Conns: 1, Forget: []int{1, 2, 3}, Ver: 4, PrepVer: 4, Kind: KBatch, Reprep: "ok", Idem: true, Multi: multi})
+		cases = append(cases, c08Case{Hosts: 2, Conns: 2, Forget: []int{1, 2}, Comp: "lz4", PrepComp: "lz4", Ver: 4, PrepVer: 4, Kind: KBatch, Reprep: "ok", Idem: true, Multi: multi})
 	}
 	// hosts added after start-up
 	for _, comp := range []string{"", "lz4"} {
@@ -324,5 +356,82 @@ func runC08(c *Ctx) {
 			c08Run(c, i, k)
 		}
 	}
+	for i := 0; i < c.Pick(6, 60); i++ {
+		if c.Mine(i) {
+			c08FreshPrepare(c, i, 2+i%2, []string{"", "lz4", "snappy"}[i%3], []time.Duration{2 * time.Millisecond, 500 * time.Microsecond, 5 * time.Millisecond}[i%3])
+		}
+	}
 	var _ = rawcql.Plain
+}
+
+func containsStr(a []string, x string) bool {
+	for _, y := range a {
+		if y == x {
+			return true
+		}
+	}
+	return false
+}
+
+// slowCache wraps a PreparedCache (public interface, users may plug their own): Store takes a while. A correct proxy
+// fills the cache before the client can hold the prepared id, so the delay is harmless.
+type slowCache struct {
+	inner proxycore.PreparedCache
+	delay time.Duration
+}
+
+func (c *slowCache) Store(id string, e *proxycore.PreparedEntry) { time.Sleep(c.delay); c.inner.Store(id, e) }
+func (c *slowCache) Load(id string) (*proxycore.PreparedEntry, bool) { return c.inner.Load(id) }
+
+// c08FreshPrepare: a client PREPAREs a statement nobody has seen and EXECUTEs it the moment the PREPARE reply arrives;
+// round-robin sends the EXECUTE to another host, which does not know the id.
+func c08FreshPrepare(c *Ctx, idx int, hosts int, comp string, delay time.Duration) {
+	r := c.R
+	scenario := map[string]interface{}{"kind": "c08-fresh", "idx": idx, "hosts": hosts, "comp": comp, "delay_us": delay.Microseconds()}
+	c.Step("c08 fresh-prepare idx=%d hosts=%d comp=%q delay=%s", idx, hosts, comp, delay)
+	inner, _ := proxy.NewDefaultPreparedCache(10000)
+	bed, err := px.NewBed(px.BedConfig{Hosts: hosts, NumConns: 1, Keyspaces: []string{"ks1"}, KeepBodies: true, PreparedCache: &slowCache{inner, delay}})
+	if err != nil {
+		r.Inconc("c08: cannot start bed: " + err.Error())
+		return
+	}
+	defer bed.Close()
+	cl, err := bed.ReadyClient(primitive.ProtocolVersion4, comp)
+	if err != nil {
+		r.Inconc("c08: handshake: " + err.Error())
+		return
+	}
+	defer cl.Close()
+	compName := comp
+	if compName == "" {
+		compName = "plain"
+	}
+	for j := 0; j < 30; j++ {
+		q := fmt.Sprintf("INSERT INTO ks1.fresh_%d_%d (k, v) VALUES (?, 1)", idx, j)
+		st := int16(10 + 2*j)
+		pf, err := cl.Call(st, &message.Prepare{Query: q}, 10*time.Second)
+		if err != nil || pf.OpCode != primitive.OpCodeResult {
+			r.Inconc(fmt.Sprintf("c08 fresh: PREPARE failed: %v", err))
+			return
+		}
+		tok := NewTok()
+		ex := &message.Execute{QueryId: fakecass.PreparedID("", q), Options: &message.QueryOptions{Consistency: primitive.ConsistencyLevelOne, PositionalValues: []*primitive.Value{primitive.NewValue([]byte(tok))}}}
+		rf, err := cl.CallF(frame.NewFrame(primitive.ProtocolVersion4, st+1, ex), 10*time.Second)
+		r.Eval(1)
+		r.Obs("fresh_prepare_executes", 1)
+		if err != nil {
+			r.Violate(mon.Violation{Signature: "C08/no-reply/fresh-prepare/" + compName, Detail: fmt.Sprintf("EXECUTE right after PREPARE got no reply: %v", err), Scenario: scenario})
+			return
+		}
+		ri := DecodeReply(comp, rf)
+		if ri.ErrCode == primitive.ErrorCodeUnprepared {
+			r.Violate(mon.Violation{Signature: "C08/unprepared-reached-client/fresh-prepare/" + compName, Detail: fmt.Sprintf("the client received the PREPARE result for %q, executed the id at once and got UNPREPARED: the statement was not in the proxy's prepared cache yet although the client already held its id (cache Store takes %s)", q, delay), Scenario: scenario, Witness: historyOf(bed.Log.Snapshot(), cl.ID, st+1, tok)})
+			return
+		}
+		if !(ri.Kind == "Rows" && ri.Tok == tok) {
+			r.Violate(mon.Violation{Signature: "C08/execute-failed/fresh-prepare/" + compName, Detail: fmt.Sprintf("EXECUTE right after PREPARE answered %s %q", ri.Kind, ri.ErrMsg), Scenario: scenario})
+			return
+		}
+	}
+	r.NonTrivial(fmt.Sprintf("fresh-prepare/h%d/%s/%s", hosts, compName, delay))
 }
